@@ -435,12 +435,17 @@ if __name__ == "__main__":
                 "cg_exit_on_errors", "cgio_error_abort"}
     dom = sorted(n for n in ex.api if n not in FILE_OPS)
     late = [n for n in dom if (n, "CW") not in V]
-    print("T", len(T), "C", len(C), "V", len(V), "NS", len(NS), "late", len(late))
-    for n in (sys.argv[1:] or late):
+    silent = [n for n in dom if (n, "CW") not in NS]
+    tolerant = [n for n in dom if ex.why_tolerant(n)]
+    print("T", len(T), "C", len(C), "V", len(V), "NS", len(NS), "late", len(late), "silent", len(silent), "tolerant", len(tolerant))
+    names = sys.argv[1:]
+    for n in (names or late):
         if (n, "CW") not in V:
             print("late", n, ex.why_late(n))
+    for n in (names or silent):
         if (n, "CW") not in NS:
             print("silent", n, ex.why_silent(n))
+    for n in (names or tolerant):
         w = ex.why_tolerant(n)
         if w:
             print("tolerant", n, w)
